@@ -58,8 +58,14 @@ pub async fn run_chunks(cfg: &Cfg, chunks: &[Vec<u8>]) -> RunOut {
     let (ctl, h) = conn::spawn_conn(state, cfg.conn());
     conn::set_default_write_mode(0, 0);
     let mut hang = false;
-    for c in chunks {
+    // a quarter of the runs (decided by the case itself): the client half-closes right behind its last byte, so the end of
+    // the stream is already there when the handler finishes the last read's commands - it still owes every reply
+    let eager_eof = !chunks.is_empty() && (chunks.iter().map(|c| c.len()).sum::<usize>() + chunks.len()) % 4 == 0;
+    for (i, c) in chunks.iter().enumerate() {
         ctl.send(c);
+        if eager_eof && i + 1 == chunks.len() {
+            ctl.close();
+        }
         if ctl.wait_idle(conn::STEP_BUDGET).await.is_err() {
             hang = true;
             break;
@@ -118,13 +124,15 @@ fn gen_val(rng: &mut Rng) -> Vec<u8> {
 /// deterministic-reply commands only (no TIME/INFO/RANDOMKEY/SPOP/KEYS ordering)
 fn gen_cmd(rng: &mut Rng, tok: &mut u32) -> Argv {
     let k = gen_key(rng);
-    match rng.gen_range(0..34) {
+    match rng.gen_range(0..35) {
         // commands that concern every shard: whatever follows them in the same read has to see them finished
         // (KEYS with an exact name: at most one element, so the reply does not depend on hash order, and still every shard is asked)
         30 => vec![b("KEYS"), gen_key(rng)],
         31 => vec![b("DBSIZE")],
         32 => vec![b(["FLUSHALL", "FLUSHDB", "flushall"][rng.gen_range(0..3)])],
         33 => vec![b("keys"), gen_key(rng)],
+        // connection-state commands in the middle of a pipeline: whatever they reset, not the bytes that follow them
+        34 => vec![b(["RESET", "reset", "UNWATCH", "DISCARD", "EXEC"][rng.gen_range(0..5)])],
         0..=6 => vec![case_mix(rng, "GET"), k],
         7..=12 => vec![case_mix(rng, "SET"), k, gen_val(rng)],
         13 => vec![b("SET"), k, gen_val(rng), b(["NX", "XX", "KEEPTTL"][rng.gen_range(0..3)])],
